@@ -5,8 +5,8 @@ M = "scylla-macros/src/"
 PROPERTY = {
     "title": "derived row/UDT mappings bind fields by name regardless of database order",
     "level": "model_checking",
-    "level_text": "Bounded model checking of the macro EXPANSIONS for a fixed family of derived structs (3 fields: int, bigint, Option<smallint>): for all 6 permutations of the database-side field/column order and all field values, Kani checks on the compiled generated code that by-name serialization puts each value in the database's position (bytes == independent spec encoding), that value -> bytes -> value is the identity, that the enforce_order flavour accepts precisely the declared order, that renamed fields bind to the like-named database field, and that a missing/unknown field is rejected under default attributes; for UDT values and for rows.",
-    "level_note": "Bounded by construction: a fixed struct family with 3 fields, not the macro generator itself (contracts cannot be put on proc-macro token manipulation). Not covered: flatten, default_when_null, allow_missing, forbid_excess_udt_fields, skip_name_checks, more than 3 fields.",
+    "level_text": "Bounded model checking of the macro EXPANSIONS for a fixed family of derived structs (3 fields: int, bigint, Option<smallint>): for all 6 permutations of the database-side field/column order and all field values, Kani checks on the compiled generated code that by-name serialization puts each value in the database's position (bytes == independent spec encoding), that value -> bytes -> value is the identity, that the enforce_order flavour accepts precisely the declared order, that renamed fields bind to the like-named database field, that a struct field missing from the database type is rejected, that an excess database field (any position) gets NULL in its own position and is ignored on read, that an allow_missing field is filled from the like-named field wherever it is listed; for UDT values and for rows.",
+    "level_note": "Bounded by construction: a fixed struct family with 3 fields, not the macro generator itself (contracts cannot be put on proc-macro token manipulation). Not covered: flatten, default_when_null, forbid_excess_udt_fields, skip_name_checks, more than 3(+1) fields.",
     "technique": "bounded model checking with Kani of derive-macro expansions over all field-order permutations (labelled bounded; no deductive contract reaches a proc-macro)",
     "timeout": 1500,
     "kani": [
@@ -14,6 +14,8 @@ PROPERTY = {
         Harness("c16_udt_enforce_order", "C16.udt.enforce_order", "BOUNDED", "ordered flavour accepts precisely the declared order", bound="3-field struct family", crate="scylla-cql-core", functions=[M + "serialize/value.rs (expansion)"]),
         Harness("c16_udt_rename", "C16.udt.rename", "BOUNDED", "renamed (crossed) names bind to the like-named DB field in every order", bound="3-field struct family", crate="scylla-cql-core", functions=[M + "serialize/value.rs (expansion)"]),
         Harness("c16_udt_missing_field_rejected", "C16.udt.missing_rejected", "BOUNDED", "unknown DB field / missing struct field rejected under default attributes", bound="3-field struct family", crate="scylla-cql-core", functions=[M + "serialize/value.rs (expansion)"]),
+        Harness("c16_udt_excess_field_any_position", "C16.udt.excess_field", "BOUNDED", "an unknown database field at any of 4 positions x all orders: NULL in its own position, nothing shifted; ignored on read", bound="3-field struct family + 1 excess field", crate="scylla-cql-core", functions=[M + "serialize/value.rs (expansion)", M + "deserialize/value.rs (expansion)"]),
+        Harness("c16_udt_allow_missing_all_orders", "C16.udt.allow_missing", "BOUNDED", "allow_missing field filled from the like-named database field in all 6 orders", bound="3-field struct family", crate="scylla-cql-core", functions=[M + "deserialize/value.rs (expansion)"]),
         Harness("c16_row_by_name_all_orders", "C16.row.by_name", "BOUNDED", "derived SerializeRow/DeserializeRow: all 6 column orders, bytes in DB order, round trip", bound="3-field struct family", crate="scylla-cql-core", functions=[M + "serialize/row.rs (expansion)", M + "deserialize/row.rs (expansion)"]),
         Harness("c16_canary_declared_order_on_the_wire", "C16.canary", "BOUNDED", "a false claim must be refuted", crate="scylla-cql-core", carries=False, canary=True),
     ],
